@@ -65,6 +65,9 @@ pub fn execute(scn: &HwScn, ctx: &mut Ctx) {
         return;
     }
     ctx.stats.absorb_world(&world.borrow());
+    // destinations that already hold older bytes: an in-memory destination cannot be truncated, so
+    // what lies beyond the new file stays; only the differential clauses apply
+    let prefilled = scn.wplan.dev.iter().any(|d| d.prefill > 0);
     let hsite = history_site(p);
     let pat = pattern(p);
     let expect_written = model_written(p);
@@ -139,7 +142,7 @@ pub fn execute(scn: &HwScn, ctx: &mut Ctx) {
                 }
             }
             // the device (below any buffer) holds a complete shapefile with the shapes written so far
-            if let Some((shp, shx)) = &m.snap {
+            if let (Some((shp, shx)), false) = (&m.snap, prefilled) {
                 let geoms: Vec<&Geom> = written_so_far.iter().map(|i| &run.geoms[*i]).collect();
                 match decode(shp) {
                     Err(e) => ctx.fail("C09", "complete-after-finalize", hsite, format!("history {}: after finalize #{} the .shp device content is rejected by the strict decoder: {}", pat, m.call_no, e)),
@@ -181,7 +184,13 @@ pub fn execute(scn: &HwScn, ctx: &mut Ctx) {
         with_shx: p.with_shx,
         stack: p.stack,
     };
-    let world_b = World::new(Plan::default());
+    // the reference run gets destinations in the same initial state (position, older content)
+    let mut plan_b = Plan::default();
+    for (d, s) in plan_b.dev.iter_mut().zip(scn.wplan.dev.iter()) {
+        d.start = s.start;
+        d.prefill = s.prefill;
+    }
+    let world_b = World::new(plan_b);
     let run_b = run_writer(&world_b, &plain);
     ctx.stats.absorb_world(&world_b.borrow());
     let shp_b = world_b.borrow().data(SHP).to_vec();
@@ -219,6 +228,11 @@ pub fn execute(scn: &HwScn, ctx: &mut Ctx) {
     }
     // the final files themselves: C02 / C04 / C05 on bytes (C05's history clause)
     let geoms: Vec<&Geom> = expect_written.iter().map(|i| &run.geoms[*i]).collect();
+    if prefilled {
+        ctx.stats.reach("destinations-with-older-content");
+        ctx.stats.distinct.insert(crate::prng::fnv_str(&format!("{}|{}|{}|{:?}|prefilled", ty, pat, p.with_shx, p.stack)));
+        return;
+    }
     if run_b.marks.iter().all(|m| m.res.is_ok()) {
         check_bytes(ctx, ty, &shp_b, if p.with_shx { Some(&shx_b) } else { None }, &geoms, "plain");
     }
@@ -359,6 +373,24 @@ pub fn c09_sweep_unit(unit: u64, max_len: usize, ctx: &mut Ctx, ctl: &mut UnitCt
             ctx.stats.evaluations += 1;
             execute(&scn, ctx);
             ctl.after_case(ctx, || Scenario::HistW(scn.clone()));
+            // the same history on destinations that already hold 104 bytes of older content (a reused
+            // buffer that is a little longer than a header), for the plain-drop and finalize-then-drop
+            // endings of the histories up to length 4. Not more than 104: every record and every index
+            // entry reaches beyond it, so that the end of the destination is the end of what was written
+            // whenever a finalize looks for it (older content beyond the new file can neither be
+            // removed by the writer nor lead to a well-formed file; C09 does not speak about it)
+            if e < 2 && seq.len() <= 4 {
+                let mut scn2 = scn.clone();
+                scn2.path = false;
+                scn2.wplan.dev[SHP].prefill = 104;
+                scn2.wplan.dev[SHX].prefill = 104;
+                if !ctl.before_case(|| Scenario::HistW(scn2.clone())) {
+                    continue;
+                }
+                ctx.stats.evaluations += 1;
+                execute(&scn2, ctx);
+                ctl.after_case(ctx, || Scenario::HistW(scn2.clone()));
+            }
         }
     }
 }
